@@ -78,6 +78,20 @@ func TestVerif_CrashHelper(t *testing.T) {
 	default:
 		t.Fatal("unknown op")
 	}
+	if os.Getenv("VERIF_HELPER_FAULT") != "" {
+		// fault mode: a syscall of the operation was made to fail; the process goes on and reports what it -- the
+		// running server -- now reads as the group's definition
+		fmt.Printf("OPRESULT err=%v\n", err != nil)
+		d, lerr := GetDescription(g)
+		if lerr != nil {
+			fmt.Printf("MEMERR %v\n", lerr)
+			return
+		}
+		b, _ := json.Marshal(d)
+		fmt.Printf("MEM %s\n", b)
+		fmt.Printf("MEMDONE 1\n")
+		return
+	}
 	if err != nil {
 		t.Fatal(err)
 	}
